@@ -306,7 +306,20 @@ def main():
             for extra_seed in [seed * 1000 + j for j in range(1, 4 if tier == "quick" else 9)]:
                 for comp in cfg["components"]:
                     outp = os.path.join(work, f"search-{comp}.ops")
-                    rc, err = vlib.run_harness(exe, comp, extra_seed, tier, outp)
+                    sx = None
+                    sgen = cfg.get("pregen", {}).get(comp)
+                    if sgen:
+                        # components whose inputs come from the Lean side: regenerate them for the search seed
+                        if not driver_ok:
+                            continue
+                        sinp = os.path.join(work, f"search-{comp}.in")
+                        with open(sinp, "w") as f:
+                            g = subprocess.run([os.path.join(vlib.LEAN, ".lake", "build", "bin", "driver"), "--gen", sgen,
+                                                str(extra_seed), tier], stdout=f, stderr=subprocess.PIPE, text=True)
+                        if g.returncode != 0:
+                            continue
+                        sx = ["--in", sinp]
+                    rc, err = vlib.run_harness(exe, comp, extra_seed, tier, outp, extra=sx)
                     s = Run(prop, tier, extra_seed); s.open_classifiers = run.open_classifiers
                     s.consume(comp, outp, rc, err, use_driver=driver_ok)
                     found += s.propfails
